@@ -60,7 +60,7 @@ Definition rsp_size (r : response) : N :=
   | RspWriteSingleRegister _ _ => 5
   | RspReadInputRegisters ws | RspReadHoldingRegisters ws | RspReadWriteMultipleRegisters ws =>
       2 + len ws * 2
-  | RspReportServerId _ _ d => 3 + len d
+  | RspReportServerId _ _ d => 4 + len d
   | RspMaskWriteRegister _ _ _ => 7
   | RspCustom _ d => 1 + len d
   end.
